@@ -148,6 +148,15 @@ def generic_check(run, models_q, models_t, jobs_q, jobs_t, rule, corpus=False, f
             jl.append(d)
         else:
             jl.append(job(run, *j[:2], **(j[2] if len(j) > 2 else {})))
+    if not quick:
+        # thorough: the random drivers of the quick tier again under three more seeds derived from VERIF_SEED
+        for j in jobs_q:
+            if isinstance(j, dict):
+                continue
+            for extra in (1, 2, 3):
+                d = job(run, "%s_s%d" % (j[0], extra), j[1], **(j[2] if len(j) > 2 else {}))
+                d["args"] = ["drive", "--seed", str(run.seed * 1000003 + extra)] + list(j[1])
+                jl.append(d)
     if corpus:
         jl.append(corpus_job(run, 16))
         if not quick:
